@@ -23,7 +23,7 @@ func init() {
 			"(R5) no printf-like call in the library takes a non-constant format string; " +
 			"plus shared: exactly one terminal call after the handler (C06.R1), buffered messages are consumed before the close error (C01.R4), terminate's update order (C03.R6).",
 		NotDecided: "equality of message and code for all byte strings, codes and RPC shapes; that the connection remains usable afterwards (C06).",
-		Rules: []Rule{
+		Rules: append([]Rule{
 			{ID: "C10.R1", Doc: "error wire layout: encoder = 8-byte big-endian code + text; decoder splits at 8 behind len >= 8; text only as a printf argument", Run: c10r1},
 			{ID: "C10.R2", Doc: "provenance: handler error -> SendError -> MarshalError -> KindError packet; mux returns the receiver's error through chain-preserving wrappers", Run: c10r2},
 			{ID: "C10.R3", Doc: "drpcerr.Code: Code() first, then Cause()/Unwrap(), bounded; WithCode wraps without losing message or code", Run: c10r3},
@@ -34,7 +34,8 @@ func init() {
 			{ID: "C10.S3", Alias: "C03.R6"},
 			{ID: "C10.S4", Alias: "C01.R3"},
 			{ID: "C10.S5", Doc: "an error packet is one packet: every frame of a message carries the id and kind newFrameLocked gave it", Alias: "C07.R2"},
-		},
+			{ID: "C10.R6", Doc: "the two hand-written unwrap loops (drpcerr.Code, drpchttp.getCode) follow both Cause() and Unwrap() chains: a code attached below any wrapper of either style is found", Run: unwrapLoopsAgree},
+		}, disciplineRules("C10", "drpcmux", "drpcerr", "drpcserver", "drpcstream", "drpcwire")...),
 	})
 }
 
@@ -495,4 +496,65 @@ func c10r5(c *an.Ctx) {
 		}
 	}
 	c.Floor("printf-like calls in library code", 1, n)
+}
+
+// unwrapLoopsAgree: sibling implementations of one loop. Each must step through
+// interface{ Cause() error } and interface{ Unwrap() error }, feeding the result
+// back into the loop variable.
+func unwrapLoopsAgree(c *an.Ctx) {
+	steps := func(fn *ssa.Function) map[string]bool {
+		out := map[string]bool{}
+		an.Instrs(fn, func(in ssa.Instruction) {
+			call, ok := in.(*ssa.Call)
+			if !ok || !call.Common().IsInvoke() {
+				return
+			}
+			m := call.Common().Method
+			sig := m.Type().(*types.Signature)
+			if sig.Params().Len() != 0 || sig.Results().Len() != 1 || !types.Identical(sig.Results().At(0).Type(), errorType) {
+				return
+			}
+			// the result becomes the loop variable: it reaches a phi (or a store) of the function
+			fed := false
+			for _, r := range *call.Referrers() {
+				switch r.(type) {
+				case *ssa.Phi, *ssa.Store:
+					fed = true
+				}
+			}
+			if fed {
+				out[m.Name()] = true
+			}
+		})
+		return out
+	}
+	// the cycle short-circuit of drpcerr.Code compares whole interface values (type word and data word): comparing
+	// less makes two different errors of one type look like a cycle and ends the walk with code 0
+	if se := c.P.SSAPkgs[c.P.ModPath+"/drpcerr"]; se != nil {
+		if fn := se.Func("shallowEqual"); fn != nil && len(fn.Blocks) > 0 {
+			c.Analysed(fn)
+			words := int64(-1)
+			an.Instrs(fn, func(in ssa.Instruction) {
+				if b, ok := in.(*ssa.BinOp); ok && (b.Op == token.EQL || b.Op == token.NEQ) {
+					if arr, ok := b.X.Type().Underlying().(*types.Array); ok {
+						words = arr.Len()
+					}
+				}
+			})
+			c.Check(words == 2, "drpcerr.shallowEqual | compares both words of the two error values", c.P.Pos(fn.Pos()), "", fmt.Sprintf("the shallow comparison covers %d word(s) of the interface value instead of 2: distinct errors of the same type compare equal and the unwrap loop stops before it reaches the code", words))
+		}
+	}
+	for _, f := range []struct{ pkg, name string }{{"drpcerr", "Code"}, {"drpchttp", "getCode"}} {
+		fn := c.Fn(f.pkg, f.name)
+		c.Analysed(fn)
+		st := steps(fn)
+		var missing []string
+		for _, want := range []string{"Cause", "Unwrap"} {
+			if !st[want] {
+				missing = append(missing, want+"()")
+			}
+		}
+		c.Check(len(missing) == 0, f.pkg+"."+f.name+" | the unwrap loop follows Cause() and Unwrap()", c.P.Pos(fn.Pos()), "",
+			"the loop no longer steps through "+strings.Join(missing, " and ")+": a code attached to an error that was wrapped that way (fmt.Errorf %w, errs.Wrap) is reported as unknown/0")
+	}
 }
